@@ -461,8 +461,16 @@ def loop_heads(body_src):
 
 
 def anchor_regex(anchor):
+    """Token-sequence regex: whitespace-insensitive, identifiers/numbers match only as whole tokens (so `tokens` does not match the
+    tail of `grm_tokens`)."""
     toks = lex(anchor)
-    return re.compile(r"\s*".join(re.escape(t.text) for t in toks))
+    parts = []
+    for t in toks:
+        e = re.escape(t.text)
+        if t.kind in ("ident", "num"):
+            e = r"(?<![A-Za-z0-9_])" + e + r"(?![A-Za-z0-9_])"
+        parts.append(e)
+    return re.compile(r"\s*".join(parts))
 
 
 def norm_tokens(src):
